@@ -8,6 +8,10 @@ namespace Btc
 /-- the double nearest to 10^-k (what the literal `1e-08` etc. denotes) -/
 def fDen (k : Int) : Rat := roundF64 (if k ≥ 0 then pow10 k.toNat else 1 / pow10 (-k).toNat)
 
+/-- the binary64 value of the literal `1e-08` written out (`(1e-08).as_integer_ratio()`); the driver op `amt_lit` shows that it is
+`fDen (-8)` and the harness that it is CPython's; C17 `lit1em8_close` bounds its distance from 10^-8 -/
+def lit1em8 : Rat := (3022314549036573 : Rat) / 302231454903657293676544
+
 /-- `Value.from_satoshi(n)` on a network with denominator 10^-8: `self.value = float(n) * 1e-08` -/
 def fromSatoshiF (n : Nat) : Rat := fmul (roundF64 n) (fDen (-8))
 
